@@ -101,7 +101,7 @@ def run(chk):
     chk.trusted_base = TRUSTED
     chk.rule = ("op tess: Voronoi::build / build_partial on all input families (1D/2D/3D, periodic/reflective, masks); every stored face: unit normal, direction away from the left generator "
                 "(towards right+shift / outward through the wall), centroid on the plane; every constructed cell: closure and divergence identity; non-trivial = constructed cell with >= 1 face")
-    chk.lean(['MVoro.Props.C04', 'MVoro.Proofs.Surface'], ['MVoro.Obl.Face'], ['Face'])
+    chk.lean(['MVoro.Props.C04', 'MVoro.Proofs.Surface'], ['MVoro.Obl.Face', 'MVoro.Obl.Integrals'], ['Face', 'Integrals', 'Geom'])
     got = run_cells_op(chk, op='tess')
     if got is None:
         return
